@@ -53,6 +53,30 @@ CLAIMED = {
          "base-is-superclass) are decided for the concrete fixture table on every run; object identity (`is`) of typing objects is modelled "
          "as strict structural equality (typing's subscription cache)"),
    technique="Lean 4 proof (mutual structural induction over the rewriter traversal) + differential correspondence check"),
+ "C08": dict(
+   text=("Lean 4 theorems over a model of type_to_dict/type_from_dict and CallTraceRow: every storable, normal type decodes back to exactly "
+         "itself at any nesting depth (type_roundtrip: nested and optional-key TypedDicts, Tuple[()], Tuple[T, ...], Type[C], unions); every "
+         "trace of an importable function of every kind (plain, classmethod, read-only property, functools.wraps chain) decodes back to the "
+         "same function, argument, return and yield types (trace_roundtrip), absent kept distinct from NoneType (absent_iff_null, "
+         "maybe_roundtrip); settable properties are rejected. Tied to /repo by comparing the JSON the implementation writes with the model's, "
+         "the decoder on good and corrupted JSON (error classes), rows of traces both ways; the round trip and 'structure only' are also "
+         "evaluated directly on the implementation."),
+   ref="DESIGN.md section 4 C08",
+   note=("trusted: Lean kernel + standard axioms; hand-written model tied by correspondence; the import system is abstracted as a lookup "
+         "table built from the live fixture package; JSON object member order is canonicalised (json.dumps sorts keys)"),
+   technique="Lean 4 proof (round-trip by mutual structural induction) over a hand-written model + differential correspondence check"),
+ "C10": dict(
+   text=("Lean 4 theorems over the same decoder plus a model of cli.get_stub's loop: each stale kind of the quantifier raises an error of the "
+         "caught MonkeyTypeError family (function_gone, function_now_other/class/settable_property, class_gone, class_now_non_type); for "
+         "every interleaving of decodable and stale rows the traces handed to stub generation are exactly those of the decodable rows alone, "
+         "the exit status is 0, and the skipped count is reported (skip_stale); nothing decodable => 'No traces found' (none_decodable). Tied "
+         "to /repo by running the real `stub`/`apply` CLI on SQLite files populated directly with 12 stale kinds interleaved with valid rows "
+         "and comparing exit status, stdout/file content (against the valid-rows-only run) and stderr with the model."),
+   ref="DESIGN.md section 4 C10",
+   note=("trusted: Lean kernel + standard axioms; hand-written model tied by correspondence; 'output equals what the decodable traces alone "
+         "produce' uses that stub generation is a function of the decoded traces (C14); malformed rows (bad JSON, wrong arity) are outside the "
+         "quantifier and proved to propagate (malformed_propagates)"),
+   technique="Lean 4 proof (induction over the row list) over a hand-written model + differential correspondence check against the real CLI"),
 }
 
 NOT_YET = "check not built yet (build in progress; see DESIGN.md section 10)"
